@@ -209,9 +209,17 @@ func (w *World) dispose(st atree.Storable) {
 	case atree.SlabIDStorable:
 		w.disposeSlab(atree.SlabID(x))
 	case *atree.ArrayDataSlab, *atree.MapDataSlab:
-		// an inlined container handed back as is (bulk pop): everything it references must be released too
-		for _, c := range x.ChildStorables() {
-			w.dispose(c)
+		// an inlined container handed back as is (bulk pop): everything it references must be released too.
+		// Done the way a caller does it - turn the storable into a value and pop it - because only the library knows
+		// which of its references are values (children, large values) and which are its own auxiliary slabs
+		// (an inlined map may hold an external collision group, released by the map's own PopIterate).
+		v, err := st.StoredValue(w.St)
+		must(err)
+		switch c := v.(type) {
+		case *atree.Array:
+			must(c.PopIterate(func(st atree.Storable) { w.dispose(st) }))
+		case *atree.OrderedMap:
+			must(c.PopIterate(func(k, v atree.Storable) { w.dispose(k); w.dispose(v) }))
 		}
 	}
 }
@@ -795,10 +803,15 @@ func (w *World) ExecNested(op *Op) (string, Res) {
 		return "NIter", fin(err, r)
 	case "n.settype":
 		var err error
+		var ti atree.TypeInfo = testutils.NewSimpleTypeInfo(uint64(op.Ti))
+		if op.Ti >= 100 {
+			// composite types: inlined maps of a composite type use the compact encoding (keys hoisted per type + key set)
+			ti = compTypeInfo{uint64(op.Ti)}
+		}
 		if h.Kind == "A" {
-			err = h.Arr.SetType(testutils.NewSimpleTypeInfo(uint64(op.Ti)))
+			err = h.Arr.SetType(ti)
 		} else {
-			err = h.Map.SetType(testutils.NewSimpleTypeInfo(uint64(op.Ti)))
+			err = h.Map.SetType(ti)
 		}
 		return "NSetType", fin(err, Res{})
 	}
